@@ -40,6 +40,7 @@ type World struct {
 	maxTicks      int64
 	siteHits      []int64
 	traceSites    bool
+	pnet          *pipeNet
 }
 
 type SiteInfo struct {
